@@ -232,21 +232,21 @@ Proof. reflexivity. Qed.
 
 (* a term's requirement for a key admits only values that satisfy every expression of the term on that key *)
 Lemma term_reqs_sound (t : term) k o vs v : List.In (k, o, vs) t -> valid_args o vs = true ->
-  has (get (term_reqs t) k) v = true -> k8s_match o vs (Some v) = true.
+  has (get (term_reqs t) (nk k)) v = true -> k8s_match o vs (Some v) = true.
 Proof.
   intros Hin Hv H. unfold term_reqs in H.
-  assert (Hi : List.In (k, new_req o None vs) (map expr_req t)).
+  assert (Hi : List.In (nk k, new_req o None vs) (map expr_req t)).
   { apply in_map_iff. exists (k, o, vs). split; [reflexivity|exact Hin]. }
-  pose proof (add_within [] _ k _ v Hi H) as Hh. rewrite has_new_req in Hh by exact Hv. exact Hh.
+  pose proof (add_within [] _ (nk k) _ v Hi H) as Hh. rewrite has_new_req in Hh by exact Hv. exact Hh.
 Qed.
 
 Lemma sel_reqs_sound (s : list (string * string)) k val v : List.In (k, val) s ->
-  has (get (sel_reqs s) k) v = true -> k8s_match In [val] (Some v) = true.
+  has (get (sel_reqs s) (nk k)) v = true -> k8s_match In [val] (Some v) = true.
 Proof.
   intros Hin H. unfold sel_reqs in H.
-  assert (Hi : List.In (k, new_req In None [val]) (map (fun kv : string * string => (fst kv, new_req In None [snd kv])) s)).
+  assert (Hi : List.In (nk k, new_req In None [val]) (map (fun kv : string * string => (nk (fst kv), new_req In None [snd kv])) s)).
   { apply in_map_iff. exists (k, val). split; [reflexivity|exact Hin]. }
-  pose proof (add_within [] _ k _ v Hi H) as Hh. rewrite has_new_req in Hh by reflexivity. exact Hh.
+  pose proof (add_within [] _ (nk k) _ v Hi H) as Hh. rewrite has_new_req in Hh by reflexivity. exact Hh.
 Qed.
 
 (* keys of a Requirements value built by Add are unique, so membership and lookup agree *)
@@ -262,41 +262,39 @@ Proof. intros Hn Hin. unfold get. rewrite (In_find k r m Hn Hin). reflexivity. Q
 
 Definition valid_term (t : term) : Prop := forall k o vs, List.In (k, o, vs) t -> valid_args o vs = true.
 
-(* NewPodRequirements / NewStrictPodRequirements: every value the pod's requirement for a key admits
-   satisfies the node selector and every expression of the FIRST required term on that key *)
-Lemma pod_reqs_sound all p k v : has (get (pod_reqs all p) k) v = true ->
-  (forall val, List.In (k, val) (p_sel p) -> k8s_match In [val] (Some v) = true) /\
+(* NewPodRequirements / NewStrictPodRequirements: every value the pod's requirement admits for the (normalised) key of
+   a constraint satisfies that constraint — for the node selector and every expression of the FIRST required term *)
+Lemma pod_reqs_sound all p :
+  (forall k val v, List.In (k, val) (p_sel p) -> has (get (pod_reqs all p) (nk k)) v = true -> k8s_match In [val] (Some v) = true) /\
   (forall t rest, p_req p = t :: rest -> valid_term t ->
-     forall o vs, List.In (k, o, vs) t -> k8s_match o vs (Some v) = true).
+     forall k o vs v, List.In (k, o, vs) t -> has (get (pod_reqs all p) (nk k)) v = true -> k8s_match o vs (Some v) = true).
 Proof.
-  intros H. unfold pod_reqs in H.
-  set (r0 := sel_reqs (p_sel p)) in *.
-  set (r1 := if all then match sort_desc (p_pref p) with (_, t) :: _ => add r0 (term_reqs t) | [] => r0 end else r0) in *.
-  assert (H1 : has (get r1 k) v = true).
-  { destruct (p_req p); [exact H|apply add_narrows in H; exact H]. }
-  assert (H0 : has (get r0 k) v = true).
-  { unfold r1 in H1. destruct all; [|exact H1]. destruct (sort_desc (p_pref p)) as [|[w t] l]; [exact H1|apply add_narrows in H1; exact H1]. }
+  unfold pod_reqs.
+  set (r0 := sel_reqs (p_sel p)).
+  set (r1 := if all then match sort_desc (p_pref p) with (_, t) :: _ => add r0 (term_reqs t) | [] => r0 end else r0).
+  assert (H10 : forall k v, has (get r1 k) v = true -> has (get r0 k) v = true).
+  { intros k v H1. unfold r1 in H1. destruct all; [|exact H1]. destruct (sort_desc (p_pref p)) as [|[w t] l]; [exact H1|apply add_narrows in H1; exact H1]. }
   split.
-  - intros val Hin. apply (sel_reqs_sound _ k val v Hin H0).
-  - intros t rest E Hvt o vs Hin. rewrite E in H.
-    assert (Hi : exists r, List.In (k, r) (term_reqs t)).
-    { pose proof (term_reqs_nodup t) as Hn. unfold get. destruct (find k (term_reqs t)) as [r|] eqn:F.
-      - exists r. apply find_In, F.
-      - exfalso. (* the key of a listed expression is present *)
-        assert (X : has_key (term_reqs t) k = true).
-        { unfold term_reqs. clear -Hin. assert (G : forall rs m, (has_key m k = true \/ List.In k (map fst rs)) -> has_key (fold_left add1 rs m) k = true).
-          { induction rs as [|[k' r'] rs IH]; intros m [Hm|Hr]; simpl; try exact Hm; try (destruct Hr; fail).
-            - apply IH. left. unfold add1, has_key in *. destruct (String.eqb_spec k k') as [->|Hn].
-              + destruct (find k' m); rewrite find_set_same; reflexivity.
-              + destruct (find k' m); rewrite find_set_other by exact Hn; exact Hm.
-            - simpl in Hr. destruct Hr as [->|Hr].
-              + apply IH. left. unfold add1, has_key. destruct (find k m); rewrite find_set_same; reflexivity.
-              + apply IH. right. exact Hr. }
-          apply G. right. apply in_map_iff. exists (k, new_req o None vs). split; [reflexivity|].
-          apply in_map_iff. exists (k, o, vs). split; [reflexivity|exact Hin]. }
-        unfold has_key in X. rewrite F in X. discriminate. }
-    destruct Hi as (r & Hr). pose proof (add_within r1 _ k r v Hr H) as Hh.
-    rewrite <- (in_reqs_get _ k r (term_reqs_nodup t) Hr) in Hh.
+  - intros k val v Hin H. apply (sel_reqs_sound _ k val v Hin). apply H10.
+    destruct (p_req p); [exact H|apply add_narrows in H; exact H].
+  - intros t rest E Hvt k o vs v Hin H. rewrite E in H.
+    assert (Hi : exists r, List.In (nk k, r) (term_reqs t)).
+    { destruct (find (nk k) (term_reqs t)) as [r|] eqn:F; [exists r; apply find_In, F|]. exfalso.
+      assert (X : has_key (term_reqs t) (nk k) = true).
+      { unfold term_reqs, add. clear -Hin.
+        assert (G : forall kk rs m, (has_key m kk = true \/ List.In kk (map fst rs)) -> has_key (fold_left add1 rs m) kk = true).
+        { intros kk. induction rs as [|[k' r'] rs IH]; intros m [Hm|Hr]; cbn [fold_left]; try exact Hm; try (destruct Hr; fail).
+          - apply IH. left. unfold add1, has_key in *. destruct (String.eqb_spec kk k') as [->|Hn].
+            + destruct (find k' m); rewrite find_set_same; reflexivity.
+            + destruct (find k' m); rewrite find_set_other by exact Hn; exact Hm.
+          - cbn [map fst] in Hr. destruct Hr as [->|Hr].
+            + apply IH. left. unfold add1, has_key. destruct (find kk m); rewrite find_set_same; reflexivity.
+            + apply IH. right. exact Hr. }
+        apply G. right. apply in_map_iff. exists (nk k, new_req o None vs). split; [reflexivity|].
+        apply in_map_iff. exists (k, o, vs). split; [reflexivity|exact Hin]. }
+      unfold has_key in X. rewrite F in X. discriminate. }
+    destruct Hi as (r & Hr). pose proof (add_within r1 _ (nk k) r v Hr H) as Hh.
+    rewrite <- (in_reqs_get _ (nk k) r (term_reqs_nodup t) Hr) in Hh.
     apply (term_reqs_sound t k o vs v Hin (Hvt k o vs Hin) Hh).
 Qed.
 
@@ -382,29 +380,58 @@ Qed.
 
 (* ================================================================== NodeClaim steps *)
 
-(* the requirements the filter ran with (before minValues are lowered) *)
-Definition step_reqs (all : bool) (n : nclaim) (p : pod) : reqs := add (nc_reqs n) (pod_reqs all p).
+(* the requirements the filter ran with (before minValues are lowered): claim + pod + the chosen volume alternative *)
+Definition base_reqs (all : bool) (n : nclaim) (p : pod) : reqs := add (nc_reqs n) (pod_reqs all p).
+Definition step_reqs (all : bool) (n : nclaim) (p : pod) (alt : option reqs) : reqs :=
+  match alt with None => base_reqs all n p | Some a => add (base_reqs all n p) a end.
+
+Lemma first_ok_ok {A B} (f : A -> res B) l : forall last b, first_ok f l last = Ok b ->
+  (exists a, List.In a l /\ f a = Ok b) \/ last = Ok b.
+Proof.
+  induction l as [|a l IH]; intros last b; simpl; [intros H; right; exact H|].
+  destruct (f a) as [b'|e] eqn:E.
+  - intros [= <-]. left. exists a. split; [left; reflexivity|exact E].
+  - intros H. destruct (IH _ _ H) as [(a' & Hin & Ha)|Hl]; [left; exists a'; split; [right; exact Hin|exact Ha]|discriminate].
+Qed.
+
+Lemma alt_list_in p alt : List.In alt (alt_list p) ->
+  match alt with None => p_valts p = [] | Some a => List.In a (p_valts p) end.
+Proof.
+  unfold alt_list. destruct (p_valts p) as [|x l] eqn:E.
+  - intros [<-|[]]. reflexivity.
+  - intros H. apply in_map_iff in H as (a & <- & Ha). exact Ha.
+Qed.
 
 Lemma nc_can_add_ok wk cat all relax n p r its :
   nc_can_add wk cat all relax n p = Ok (r, its) ->
   tolerates_all (nc_taints n) (p_tols p) = true /\
   compatible wk (nc_reqs n) (pod_reqs all p) = true /\
-  (forall k v, has (get r k) v = has (get (step_reqs all n p) k) v) /\
+  exists alt u, List.In alt (alt_list p) /\
+  r = (if relax then set_minv (step_reqs all n p alt) u else step_reqs all n p alt) /\
   its <> [] /\
   forall name, List.In name its ->
     mem name (nc_its n) = true /\
     exists i g, List.In i cat /\ it_name i = name /\ List.In g (nc_groups n) /\ List.In name (dg_its g) /\
-      option_ok wk (step_reqs all n p) (rmerge (nc_requests n) (p_requests p)) (p_key p) (p_ports p) g i.
+      option_ok wk (step_reqs all n p alt) (rmerge (nc_requests n) (p_requests p)) (p_key p) (p_ports p) g i.
 Proof.
-  unfold nc_can_add, step_reqs.
+  unfold nc_can_add.
   destruct (tolerates_all (nc_taints n) (p_tols p)) eqn:T; simpl; [|discriminate].
   destruct (compatible wk (nc_reqs n) (pod_reqs all p)) eqn:C; simpl; [|discriminate].
-  destruct (filter_its wk cat (nc_its n) (add (nc_reqs n) (pod_reqs all p)) (p_key p) (p_ports p) (nc_groups n)
+  intros H. split; [reflexivity|]. split; [reflexivity|].
+  apply first_ok_ok in H as [(alt & Hin & H)|H]; [|discriminate].
+  exists alt. unfold nc_try in H. fold (base_reqs all n p) in H.
+  assert (Hr : exists rr, (match alt with None => Ok (base_reqs all n p)
+                           | Some a => if compatible wk (base_reqs all n p) a then Ok (add (base_reqs all n p) a) else Err EVolReqs end) = Ok rr
+                          /\ rr = step_reqs all n p alt).
+  { destruct alt as [a|]; simpl.
+    - destruct (compatible wk (base_reqs all n p) a); [eexists; split; reflexivity|discriminate].
+    - eexists; split; reflexivity. }
+  destruct Hr as (rr & Hrr & Err'). rewrite Hrr in H. subst rr.
+  destruct (filter_its wk cat (nc_its n) (step_reqs all n p alt) (p_key p) (p_ports p) (nc_groups n)
               (rmerge (nc_requests n) (p_requests p)) relax) as [[rem unsat] fe] eqn:F.
-  destruct fe as [[| ]|]; try discriminate. intros [= <- <-].
+  destruct fe as [[| ]|]; try discriminate. injection H as <- <-.
   destruct (filter_its_sound _ _ _ _ _ _ _ _ _ _ _ F) as [Hne Hall].
-  split; [reflexivity|]. split; [reflexivity|]. split.
-  { intros k v. destruct relax; [apply has_set_minv|reflexivity]. }
+  exists unsat. split; [exact Hin|]. split; [reflexivity|].
   split. { destruct rem; [congruence|discriminate]. }
   intros name Hn. apply in_map_iff in Hn as (i & <- & Hi).
   destruct (Hall i Hi) as (H1 & H2 & g & Hg & Hd & Ho).
@@ -425,13 +452,17 @@ Definition pod_wf (p : pod) : Prop :=
   NoDup (map fst (p_requests p)) /\ (forall t rest, p_req p = t :: rest -> valid_term t).
 
 Definition values_ok (r : reqs) (p : pod) : Prop :=
-  forall k v, has (get r k) v = true ->
-    (forall val, List.In (k, val) (p_sel p) -> k8s_match In [val] (Some v) = true) /\
-    (forall t rest, p_req p = t :: rest -> forall o vs, List.In (k, o, vs) t -> k8s_match o vs (Some v) = true).
+  (forall k val v, List.In (k, val) (p_sel p) -> has (get r (nk k)) v = true -> k8s_match In [val] (Some v) = true) /\
+  (forall t rest, p_req p = t :: rest ->
+     forall k o vs v, List.In (k, o, vs) t -> has (get r (nk k)) v = true -> k8s_match o vs (Some v) = true).
+
+(* some volume-topology alternative of the pod admits every value the node's requirement admits, key by key *)
+Definition valts_ok (r : reqs) (p : pod) : Prop :=
+  p_valts p = [] \/ exists a, List.In a (p_valts p) /\ forall k v, has (get r k) v = true -> has (get a k) v = true.
 
 Definition nc_inv (wk : list string) (cat : list itype) (n : nclaim) : Prop :=
   (forall k, rget k (nc_requests n) = rsum (map p_requests (nc_pods n)) k) /\
-  (forall p, List.In p (nc_pods n) -> k8s_tolerated (nc_taints n) (p_tols p) /\ values_ok (nc_reqs n) p) /\
+  (forall p, List.In p (nc_pods n) -> k8s_tolerated (nc_taints n) (p_tols p) /\ values_ok (nc_reqs n) p /\ valts_ok (nc_reqs n) p) /\
   (nc_pods n <> [] -> forall name, List.In name (nc_its n) ->
      exists i g alloc offs o, List.In i cat /\ it_name i = name /\ List.In g (nc_groups n) /\ List.In name (dg_its g) /\
        it_compatible i (nc_reqs n) = true /\
@@ -502,15 +533,16 @@ Qed.
 Definition nc_wf (n : nclaim) : Prop :=
   nodup_keys (nc_reqs n) /\ forall g, List.In g (nc_groups n) -> NoDup (map fst (dg_overhead g)).
 
-Lemma nc_can_add_reqs_eq wk cat all relax n p r its :
-  nc_can_add wk cat all relax n p = Ok (r, its) ->
-  exists u, r = (if relax then set_minv (step_reqs all n p) u else step_reqs all n p).
+Lemma has_get_in_add m a k v : has (get (add m a) k) v = true -> has (get a k) v = true.
 Proof.
-  unfold nc_can_add, step_reqs.
-  destruct (tolerates_all _ _); simpl; [|discriminate]. destruct (compatible wk _ _); simpl; [|discriminate].
-  destruct (filter_its _ _ _ _ _ _ _ _ _) as [[rem unsat] fe]. destruct fe as [[| ]|]; try discriminate.
-  intros [= <- _]. exists unsat. reflexivity.
+  rewrite has_get_add. intros H. apply andb_prop in H as [_ H].
+  unfold get. destruct (find k a) as [x|] eqn:F; [|reflexivity].
+  rewrite forallb_forall in H. specialize (H (k, x) (find_In _ _ _ F)). cbn [fst snd] in H. rewrite String.eqb_refl in H. exact H.
 Qed.
+
+Lemma step_reqs_narrows all n p alt k v :
+  has (get (step_reqs all n p alt) k) v = true -> has (get (base_reqs all n p) k) v = true.
+Proof. destruct alt as [a|]; simpl; [apply add_narrows|intros H; exact H]. Qed.
 
 Lemma nc_step_preserves wk cat all rx n p :
   nc_wf n -> pod_wf p -> nc_inv wk cat n ->
@@ -518,9 +550,11 @@ Lemma nc_step_preserves wk cat all rx n p :
 Proof.
   intros [Wn Wg] [Wp Wt] (I1 & I2 & I3). unfold nc_step.
   destruct (nc_can_add wk cat all rx n p) as [[r its]|e] eqn:C; cbn [fst]; [|split; [split; assumption|split; [exact I1|split; [exact I2|exact I3]]]].
-  destruct (nc_can_add_ok _ _ _ _ _ _ _ _ C) as (HT & HC & HR & Hne & Hits).
-  destruct (nc_can_add_reqs_eq _ _ _ _ _ _ _ _ C) as (u & Er).
-  assert (Wstep : nodup_keys (step_reqs all n p)) by (apply nodup_add, Wn).
+  destruct (nc_can_add_ok _ _ _ _ _ _ _ _ C) as (HT & HC & alt & u & Halt & Er & Hne & Hits).
+  assert (Wstep : nodup_keys (step_reqs all n p alt)).
+  { unfold step_reqs, base_reqs. destruct alt; repeat apply nodup_add; exact Wn. }
+  assert (HR : forall k v, has (get r k) v = has (get (step_reqs all n p alt) k) v).
+  { intros k v. rewrite Er. destruct rx; [apply has_set_minv|reflexivity]. }
   assert (Wr : nodup_keys r).
   { rewrite Er. destruct rx; [|exact Wstep]. unfold nodup_keys. rewrite set_minv_keys. exact Wstep. }
   unfold nc_add. unfold nc_wf, nc_inv. cbn [nc_requests nc_pods nc_reqs nc_its nc_groups nc_taints].
@@ -529,21 +563,25 @@ Proof.
   split; [|split].
   - intros k. rewrite map_app. cbn [map]. rewrite rsum_app, rget_rmerge, I1 by exact Wp. reflexivity.
   - intros q Hq. apply in_app_or in Hq as [Hq|[<-|[]]].
-    + destruct (I2 q Hq) as [Ht Hv]. split; [exact Ht|].
-      intros k v Hh. rewrite HR in Hh. unfold step_reqs in Hh. apply add_narrows in Hh. apply (Hv k v Hh).
-    + split; [apply tolerates_all_k8s, HT|].
-      intros k v Hh. rewrite HR in Hh. unfold step_reqs in Hh.
-      assert (Hp : has (get (pod_reqs all p) k) v = true).
-      { rewrite has_get_add in Hh. apply andb_prop in Hh as [_ Hh].
-        unfold get. destruct (find k (pod_reqs all p)) as [x|] eqn:F; [|reflexivity].
-        rewrite forallb_forall in Hh. specialize (Hh (k, x) (find_In _ _ _ F)). cbn [fst snd] in Hh. rewrite String.eqb_refl in Hh. exact Hh. }
-      destruct (pod_reqs_sound all p k v Hp) as [S1 S2]. split; [exact S1|].
-      intros t rest E o vs Hin. apply (S2 t rest E (Wt t rest E) o vs Hin).
+    + destruct (I2 q Hq) as (Ht & Hv & Ha). split; [exact Ht|].
+      assert (Hnar : forall k v, has (get r k) v = true -> has (get (nc_reqs n) k) v = true).
+      { intros k v Hh. rewrite HR in Hh. apply step_reqs_narrows in Hh. unfold base_reqs in Hh. apply add_narrows in Hh. exact Hh. }
+      split; [destruct Hv as [V1 V2]; split;
+              [intros k val v Hin Hh; apply (V1 k val v Hin (Hnar _ v Hh))|intros t rest E k o vs v Hin Hh; apply (V2 t rest E k o vs v Hin (Hnar _ v Hh))]|].
+      destruct Ha as [E|(a & Hin & Hall)]; [left; exact E|right; exists a; split; [exact Hin|intros k v Hh; apply Hall, Hnar, Hh]].
+    + split; [apply tolerates_all_k8s, HT|]. split.
+      * assert (Hpod : forall k v, has (get r k) v = true -> has (get (pod_reqs all p) k) v = true).
+        { intros k v Hh. rewrite HR in Hh. apply step_reqs_narrows in Hh. unfold base_reqs in Hh. apply has_get_in_add in Hh. exact Hh. }
+        destruct (pod_reqs_sound all p) as [S1 S2]. split.
+        -- intros k val v Hin Hh. apply (S1 k val v Hin (Hpod _ v Hh)).
+        -- intros t rest E k o vs v Hin Hh. apply (S2 t rest E (Wt t rest E) k o vs v Hin (Hpod _ v Hh)).
+      * pose proof (alt_list_in p alt Halt) as Hal. destruct alt as [a|]; [|left; exact Hal].
+        right. exists a. split; [exact Hal|]. intros k v Hh. rewrite HR in Hh. cbn [step_reqs] in Hh. apply has_get_in_add in Hh. exact Hh.
   - intros _ name Hn. destruct (Hits name Hn) as (_ & i & g & Hi & Hnm & Hg & Hd & Hc & Hcomp & alloc & offs & o & Ha & Ho & Hco & Hf).
     exists i, (mkDG (dg_its g) (dg_overhead g) (uset (dg_ports g) (p_key p) (p_ports p))), alloc, offs, o. cbn [dg_its dg_overhead].
-    assert (Ecomp : forall oo, compatible wk r oo = compatible wk (step_reqs all n p) oo).
+    assert (Ecomp : forall oo, compatible wk r oo = compatible wk (step_reqs all n p alt) oo).
     { intros oo. rewrite Er. destruct rx; [apply compatible_set_minv, Wstep|reflexivity]. }
-    assert (Eint : it_compatible i r = it_compatible i (step_reqs all n p)).
+    assert (Eint : it_compatible i r = it_compatible i (step_reqs all n p alt)).
     { unfold it_compatible. rewrite Er. destruct rx; [apply intersects_set_minv, Wstep|reflexivity]. }
     repeat split; try assumption.
     + apply in_map_iff. exists g. split; [reflexivity|exact Hg].
@@ -569,27 +607,27 @@ Qed.
 
 (* ---- from the invariant to Kubernetes admissibility of every launch option ---- *)
 
-(* the first required term of the relaxed pod is one of the original pod's terms *)
+(* whenever the claim's requirement for the (normalised) key of a constraint admits a value at all, every label the
+   node may get for that key satisfies the constraint — for the node selector and the required term the pod was placed
+   with (the first term of the relaxed pod, which is one of the original pod's terms) *)
 Definition chosen_ok (r : reqs) (p : pod) : Prop :=
-  forall k, (exists v, has (get r k) v = true) ->
-    (forall val, List.In (k, val) (p_sel p) -> sat_all (get r k) In [val]) /\
-    (forall t rest, p_req p = t :: rest -> forall o vs, List.In (k, o, vs) t -> sat_all (get r k) o vs).
+  (forall k val, List.In (k, val) (p_sel p) -> (exists v, has (get r (nk k)) v = true) -> sat_all (get r (nk k)) In [val]) /\
+  (forall t rest, p_req p = t :: rest -> forall k o vs, List.In (k, o, vs) t ->
+     (exists v, has (get r (nk k)) v = true) -> sat_all (get r (nk k)) o vs).
 
-(* whenever the claim's requirement for a key admits a value at all, every label the node may get satisfies the
-   pod's constraints on that key *)
 Lemma values_ok_sat_all r p : values_ok r p -> chosen_ok r p.
 Proof.
-  intros H k (v0 & Hv0). split.
-  - intros val Hin lbl Hm. destruct lbl as [v|]; simpl in Hm; [apply (proj1 (H k v Hm) val Hin)|].
+  intros [V1 V2]. split.
+  - intros k val Hin (v0 & Hv0) lbl Hm. destruct lbl as [v|]; simpl in Hm; [apply (V1 k val v Hin Hm)|].
     rewrite Hm in Hv0. discriminate.
-  - intros t rest E o vs Hin lbl Hm. destruct lbl as [v|]; simpl in Hm; [apply (proj2 (H k v Hm) t rest E o vs Hin)|].
+  - intros t rest E k o vs Hin (v0 & Hv0) lbl Hm. destruct lbl as [v|]; simpl in Hm; [apply (V2 t rest E k o vs v Hin Hm)|].
     rewrite Hm in Hv0. discriminate.
 Qed.
 
 Theorem nc_options_admissible_l wk cat all n0 ops :
   nc_wf n0 -> nc_pods n0 = [] -> nc_requests n0 = [] -> Forall (fun op => pod_wf (fst op)) ops ->
   let n := nc_exec wk cat all n0 ops in
-  (forall p, List.In p (nc_pods n) -> k8s_tolerated (nc_taints n) (p_tols p) /\ chosen_ok (nc_reqs n) p) /\
+  (forall p, List.In p (nc_pods n) -> k8s_tolerated (nc_taints n) (p_tols p) /\ chosen_ok (nc_reqs n) p /\ valts_ok (nc_reqs n) p) /\
   (nc_pods n <> [] -> forall name, List.In name (nc_its n) ->
      exists i g alloc offs o, List.In i cat /\ it_name i = name /\ List.In g (nc_groups n) /\ List.In name (dg_its g) /\
        List.In (alloc, offs) (it_groups i) /\ List.In o offs /\ compatible wk (nc_reqs n) o = true /\
@@ -598,7 +636,7 @@ Proof.
   intros Wn Hp Hr Wops n.
   destruct (nc_exec_inv wk cat all ops n0 Wn Wops (nc_inv_init wk cat n0 Hp Hr)) as [[_ Wg] (I1 & I2 & I3)].
   fold n in Wg, I1, I2, I3. split.
-  - intros p Hin. destruct (I2 p Hin) as [Ht Hv]. split; [exact Ht|apply values_ok_sat_all, Hv].
+  - intros p Hin. destruct (I2 p Hin) as (Ht & Hv & Ha). split; [exact Ht|]. split; [apply values_ok_sat_all, Hv|exact Ha].
   - intros Hne name Hn. destruct (I3 Hne name Hn) as (i & g & alloc & offs & o & Hi & Hnm & Hg & Hd & _ & Ha & Ho & Hc & Hf).
     exists i, g, alloc, offs, o. repeat split; try assumption.
     intros k. pose proof (fits_spec _ _ Hf k) as Hk. rewrite rget_total_for in Hk by (apply Wg, Hg). rewrite I1 in Hk. exact Hk.
@@ -609,10 +647,12 @@ Qed.
 Fixpoint ex_exec (all : bool) (n : enode) (ops : list pod) : enode :=
   match ops with [] => n | p :: rest => ex_exec all (fst (ex_step all n p)) rest end.
 
-Definition ex_inv (rem0 : rl) (n : enode) : Prop :=
+Definition ex_inv (rem0 : rl) (vols0 : vols) (n : enode) : Prop :=
   (forall k, rget k (en_remaining n) = rget k rem0 - rsum (map p_requests (en_pods n)) k) /\
   (forall k, 0 <= rget k (en_remaining n)) /\
-  (forall p, List.In p (en_pods n) -> k8s_tolerated (en_taints n) (p_tols p) /\ values_ok (en_reqs n) p).
+  (forall p, List.In p (en_pods n) -> k8s_tolerated (en_taints n) (p_tols p) /\ values_ok (en_reqs n) p /\ valts_ok (en_reqs n) p) /\
+  en_vols n = vols0 ++ flat_map p_vols (en_pods n) /\
+  (en_pods n <> [] -> forall d l, List.In (d, l) (en_vlimits n) -> vcount d (en_vols n) <= l).
 
 Lemma rget_rsub_from dest src k : NoDup (map fst src) -> rget k (rsub_from dest src) = rget k dest - rget k src.
 Proof.
@@ -622,47 +662,88 @@ Proof.
   rewrite G, rtotal_nodup by exact H. reflexivity.
 Qed.
 
-Lemma ex_step_preserves all rem0 n p : pod_wf p -> ex_inv rem0 n -> ex_inv rem0 (fst (ex_step all n p)).
+Lemma exceeds_limits_false limits used new :
+  exceeds_limits limits used new = false -> forall d l, List.In (d, l) limits -> vcount d (used ++ new) <= l.
 Proof.
-  intros [Wp Wt] (I1 & I0 & I2). unfold ex_step, ex_can_add.
-  destruct (tolerates_all (en_taints n) (p_tols p)) eqn:T; cbn [negb fst]; [|split; [exact I1|split; [exact I0|exact I2]]].
-  destruct (conflicts (en_ports n) (p_key p) (p_ports p)) eqn:C; cbn [negb fst]; [split; [exact I1|split; [exact I0|exact I2]]|].
-  destruct (fits (p_requests p) (en_remaining n)) eqn:F; cbn [negb fst]; [|split; [exact I1|split; [exact I0|exact I2]]].
-  destruct (compatible [] (en_reqs n) (pod_reqs all p)) eqn:Co; cbn [negb fst]; [|split; [exact I1|split; [exact I0|exact I2]]].
-  unfold ex_add, ex_inv. cbn [en_remaining en_pods en_reqs en_taints en_ports].
-  split; [|split].
+  unfold exceeds_limits. intros H d l Hin.
+  destruct (Z.le_gt_cases (vcount d (used ++ new)) l) as [Hle|Hgt]; [exact Hle|]. exfalso.
+  assert (X : existsb (fun dl : string * Z => snd dl <? vcount (fst dl) (used ++ new)) limits = true).
+  { apply existsb_exists. exists (d, l). split; [exact Hin|]. apply Z.ltb_lt. exact Hgt. }
+  rewrite X in H. discriminate.
+Qed.
+
+Lemma ex_step_preserves all rem0 vols0 n p : pod_wf p -> ex_inv rem0 vols0 n -> ex_inv rem0 vols0 (fst (ex_step all n p)).
+Proof.
+  intros [Wp Wt] (I1 & I0 & I2 & I3 & I4). unfold ex_step, ex_can_add.
+  assert (Same : ex_inv rem0 vols0 n) by (split; [exact I1|split; [exact I0|split; [exact I2|split; [exact I3|exact I4]]]]).
+  destruct (tolerates_all (en_taints n) (p_tols p)) eqn:T; cbn [negb fst]; [|exact Same].
+  destruct (exceeds_limits (en_vlimits n) (en_vols n) (p_vols p)) eqn:V; cbn [negb fst]; [exact Same|].
+  destruct (conflicts (en_ports n) (p_key p) (p_ports p)) eqn:C; cbn [negb fst]; [exact Same|].
+  destruct (fits (p_requests p) (en_remaining n)) eqn:F; cbn [negb fst]; [|exact Same].
+  destruct (compatible [] (en_reqs n) (pod_reqs all p)) eqn:Co; cbn [negb fst]; [|exact Same].
+  destruct (first_ok (ex_try (add (en_reqs n) (pod_reqs all p))) (alt_list p) (Err EVolReqs)) as [r|e] eqn:FO; cbn [fst]; [|exact Same].
+  apply first_ok_ok in FO as [(alt & Halt & Htry)|Hl]; [|discriminate].
+  assert (Hr : forall k v, has (get r k) v = true -> has (get (add (en_reqs n) (pod_reqs all p)) k) v = true).
+  { intros k v Hh. unfold ex_try in Htry. destruct alt as [a|].
+    - destruct (compatible [] (add (en_reqs n) (pod_reqs all p)) a); [|discriminate]. injection Htry as <-. apply add_narrows in Hh. exact Hh.
+    - injection Htry as <-. exact Hh. }
+  unfold ex_add, ex_inv. cbn [en_remaining en_pods en_reqs en_taints en_ports en_vols en_vlimits].
+  split; [|split; [|split; [|split]]].
   - intros k. rewrite map_app. cbn [map]. rewrite rget_rsub_from, rsum_app, I1 by exact Wp. lia.
   - intros k. rewrite rget_rsub_from by exact Wp. pose proof (fits_spec _ _ F k). lia.
   - intros q Hq. apply in_app_or in Hq as [Hq|[<-|[]]].
-    + destruct (I2 q Hq) as [Ht Hv]. split; [exact Ht|]. intros k v Hh. apply add_narrows in Hh. apply (Hv k v Hh).
-    + split; [apply tolerates_all_k8s, T|]. intros k v Hh.
-      assert (Hp : has (get (pod_reqs all p) k) v = true).
-      { rewrite has_get_add in Hh. apply andb_prop in Hh as [_ Hh].
-        unfold get. destruct (find k (pod_reqs all p)) as [x|] eqn:Fk; [|reflexivity].
-        rewrite forallb_forall in Hh. specialize (Hh (k, x) (find_In _ _ _ Fk)). cbn [fst snd] in Hh. rewrite String.eqb_refl in Hh. exact Hh. }
-      destruct (pod_reqs_sound all p k v Hp) as [S1 S2]. split; [exact S1|].
-      intros t rest E o vs Hin. apply (S2 t rest E (Wt t rest E) o vs Hin).
+    + destruct (I2 q Hq) as (Ht & Hv & Ha). split; [exact Ht|].
+      assert (Hnar : forall k v, has (get r k) v = true -> has (get (en_reqs n) k) v = true).
+      { intros k v Hh. apply Hr in Hh. apply add_narrows in Hh. exact Hh. }
+      split; [destruct Hv as [V1 V2]; split;
+              [intros k val v Hin Hh; apply (V1 k val v Hin (Hnar _ v Hh))|intros t rest E k o vs v Hin Hh; apply (V2 t rest E k o vs v Hin (Hnar _ v Hh))]|].
+      destruct Ha as [E|(a & Hin & Hall)]; [left; exact E|right; exists a; split; [exact Hin|intros k v Hh; apply Hall, Hnar, Hh]].
+    + split; [apply tolerates_all_k8s, T|]. split.
+      * assert (Hpod : forall k v, has (get r k) v = true -> has (get (pod_reqs all p) k) v = true).
+        { intros k v Hh. apply Hr in Hh. apply has_get_in_add in Hh. exact Hh. }
+        destruct (pod_reqs_sound all p) as [S1 S2]. split.
+        -- intros k val v Hin Hh. apply (S1 k val v Hin (Hpod _ v Hh)).
+        -- intros t rest E k o vs v Hin Hh. apply (S2 t rest E (Wt t rest E) k o vs v Hin (Hpod _ v Hh)).
+      * pose proof (alt_list_in p alt Halt) as Hal. destruct alt as [a|]; [|left; exact Hal].
+        right. exists a. split; [exact Hal|]. intros k v Hh. unfold ex_try in Htry.
+        destruct (compatible [] (add (en_reqs n) (pod_reqs all p)) a); [|discriminate]. injection Htry as <-.
+        apply has_get_in_add in Hh. exact Hh.
+  - rewrite I3, flat_map_app. cbn [flat_map]. rewrite app_nil_r, app_assoc. reflexivity.
+  - intros _ d l Hin. apply (exceeds_limits_false _ _ _ V d l Hin).
 Qed.
 
-Theorem ex_exec_inv_l all rem0 ops : forall n,
-  Forall pod_wf ops -> ex_inv rem0 n -> ex_inv rem0 (ex_exec all n ops).
+Theorem ex_exec_inv_l all rem0 vols0 ops : forall n,
+  Forall pod_wf ops -> ex_inv rem0 vols0 n -> ex_inv rem0 vols0 (ex_exec all n ops).
 Proof.
   induction ops as [|p ops IH]; intros n W I; simpl; [exact I|].
   inversion W; subst. apply IH; [assumption|]. apply ex_step_preserves; assumption.
 Qed.
 
+Lemma ex_exec_vlimits all ops : forall n, en_vlimits (ex_exec all n ops) = en_vlimits n.
+Proof.
+  induction ops as [|p ops IH]; intros n; simpl; [reflexivity|]. rewrite IH. unfold ex_step.
+  destruct (ex_can_add all n p); reflexivity.
+Qed.
+
 (* the pods placed on an existing node never exceed what was left for them (remaining resources = available
-   minus the daemons still to come) *)
+   minus the daemons still to come), and the distinct volumes per CSI driver — those already attached plus those of the
+   placed pods — stay within the node's attach limits *)
 Theorem ex_resources_l all ops n0 :
   Forall pod_wf ops -> en_pods n0 = [] -> (forall k, 0 <= rget k (en_remaining n0)) ->
   let n := ex_exec all n0 ops in
-  forall k, rsum (map p_requests (en_pods n)) k <= rget k (en_remaining n0).
+  (forall k, rsum (map p_requests (en_pods n)) k <= rget k (en_remaining n0)) /\
+  (en_pods n <> [] -> forall d l, List.In (d, l) (en_vlimits n0) -> vcount d (en_vols n0 ++ flat_map p_vols (en_pods n)) <= l) /\
+  (forall p, List.In p (en_pods n) -> valts_ok (en_reqs n) p).
 Proof.
-  intros W Hp Hnn n k.
-  assert (I : ex_inv (en_remaining n0) n0).
-  { unfold ex_inv. rewrite Hp. split; [intros k0; cbn [map rsum fold_right]; lia|]. split; [exact Hnn|intros q []]. }
-  destruct (ex_exec_inv_l all _ ops n0 W I) as (I1 & I0 & _). fold n in I1, I0.
-  specialize (I1 k). specialize (I0 k). lia.
+  intros W Hp Hnn n.
+  assert (I : ex_inv (en_remaining n0) (en_vols n0) n0).
+  { unfold ex_inv. rewrite Hp. split; [intros k0; cbn [map rsum fold_right]; lia|]. split; [exact Hnn|]. split; [intros q []|].
+    split; [cbn [flat_map]; rewrite app_nil_r; reflexivity|intros H; congruence]. }
+  destruct (ex_exec_inv_l all _ _ ops n0 W I) as (I1 & I0 & I2 & I3 & I4). fold n in I1, I0, I2, I3, I4.
+  split; [|split].
+  - intros k. specialize (I1 k). specialize (I0 k). lia.
+  - intros Hne d l Hin. rewrite <- I3. apply (I4 Hne). unfold n. rewrite ex_exec_vlimits. exact Hin.
+  - intros p Hin. apply (I2 p Hin).
 Qed.
 
 (* ================================================================== Preferences.Relax *)
@@ -1024,11 +1105,13 @@ Proof.
 Qed.
 
 Definition eff_wf (eff : string -> option req) : Prop := forall k x, eff k = Some x -> wf x.
-Definition pod_valid (p : pod) : Prop := forall t, List.In t (p_req p) -> valid_term t.
+Definition pod_valid (p : pod) : Prop :=
+  (forall t, List.In t (p_req p) -> valid_term t) /\
+  (forall terms t, List.In terms (p_volterms p) -> List.In t terms -> valid_term t).
 
 Lemma labels_ok_b_spec eff p : eff_wf eff -> pod_valid p -> (labels_ok_b eff p = true <-> labels_ok eff p).
 Proof.
-  intros We Wp. unfold labels_ok_b, labels_ok. rewrite andb_true_iff, forallb_forall.
+  intros We [Wp _]. unfold labels_ok_b, labels_ok. rewrite andb_true_iff, forallb_forall.
   assert (Hsel : forall kv : string * string, sat_all_ob (eff (fst kv)) In [snd kv] = true <-> sat_all_o (eff (fst kv)) In [snd kv]).
   { intros kv. apply sat_all_ob_spec; [intros x E; apply (We _ _ E)|reflexivity]. }
   assert (Hterm : forall t, List.In t (p_req p) -> (forallb (expr_ok_b eff) t = true <-> forall x, List.In x t -> expr_ok eff x)).
@@ -1043,16 +1126,48 @@ Proof.
     destruct (p_req p) as [|t0 ts] eqn:Er; [reflexivity|]. apply existsb_exists. exists t. split; [exact Ht|]. apply (Hterm t Ht), Hf.
 Qed.
 
+Lemma terms_ok_b_spec eff (terms : list term) : eff_wf eff -> (forall t, List.In t terms -> valid_term t) ->
+  ((match terms with [] => true | _ => existsb (fun t => forallb (expr_ok_b eff) t) terms end) = true <->
+   (terms = [] \/ exists t, List.In t terms /\ forall x, List.In x t -> expr_ok eff x)).
+Proof.
+  intros We Wv.
+  assert (Hterm : forall t, List.In t terms -> (forallb (expr_ok_b eff) t = true <-> forall x, List.In x t -> expr_ok eff x)).
+  { intros t Ht. rewrite forallb_forall. split; intros H [[k o] vs] Hx; specialize (H _ Hx); unfold expr_ok_b, expr_ok in *;
+      apply (sat_all_ob_spec (eff k) o vs (fun x E => We _ _ E) (Wv t Ht k o vs Hx)); exact H. }
+  destruct terms as [|t0 ts]; [split; [intros _; left; reflexivity|reflexivity]|]. split.
+  - intros H. right. apply existsb_exists in H as (t & Ht & Hf). exists t. split; [exact Ht|]. apply (Hterm t Ht), Hf.
+  - intros [E|(t & Ht & Hf)]; [discriminate|]. apply existsb_exists. exists t. split; [exact Ht|]. apply (Hterm t Ht), Hf.
+Qed.
+
+Lemma vol_zone_ok_b_spec eff p : eff_wf eff -> pod_valid p -> (vol_zone_ok_b eff p = true <-> vol_zone_ok eff p).
+Proof.
+  intros We [_ Wv]. unfold vol_zone_ok_b, vol_zone_ok. rewrite forallb_forall. split.
+  - intros H terms Hin. apply (terms_ok_b_spec eff terms We (fun t Ht => Wv terms t Hin Ht)), H, Hin.
+  - intros H terms Hin. apply (terms_ok_b_spec eff terms We (fun t Ht => Wv terms t Hin Ht)), H, Hin.
+Qed.
+
+Lemma vol_limits_ok_b_spec limits ps : vol_limits_ok_b limits ps = true <-> vol_limits_ok limits ps.
+Proof.
+  unfold vol_limits_ok_b, vol_limits_ok. rewrite forallb_forall. split.
+  - intros H d l Hin. specialize (H (d, l) Hin). apply Z.leb_le, H.
+  - intros H [d l] Hin. apply Z.leb_le, H, Hin.
+Qed.
+
 (* the boolean oracle evaluated by the check is the specification *)
 Theorem admissible_b_spec_l v ps : eff_wf (v_eff v) -> Forall pod_valid ps ->
   (admissible_b v ps = true <-> admissible v ps).
 Proof.
-  intros We Wp. unfold admissible_b, admissible. rewrite !andb_true_iff, forallb_forall, ports_ok_b_spec, resources_ok_b_spec.
+  intros We Wp. unfold admissible_b, admissible.
+  rewrite !andb_true_iff, forallb_forall, ports_ok_b_spec, resources_ok_b_spec, vol_limits_ok_b_spec.
   rewrite Forall_forall in Wp. split.
-  - intros [[H1 H2] H3]. split; [|split; assumption]. intros p Hp. specialize (H1 p Hp). apply andb_prop in H1 as [Ha Hb].
-    split; [apply (labels_ok_b_spec _ _ We (Wp p Hp)), Ha|apply k8s_tolerated_b_spec, Hb].
-  - intros [H1 [H2 H3]]. split; [split; [|exact H2]|exact H3]. intros p Hp. destruct (H1 p Hp) as [Ha Hb].
-    apply andb_true_intro. split; [apply (labels_ok_b_spec _ _ We (Wp p Hp)), Ha|apply k8s_tolerated_b_spec, Hb].
+  - intros [[[H1 H2] H3] H4]. split; [|split; [exact H2|split; [exact H3|exact H4]]]. intros p Hp. specialize (H1 p Hp).
+    apply andb_prop in H1 as [H1 Hc]. apply andb_prop in H1 as [Ha Hb].
+    split; [apply (labels_ok_b_spec _ _ We (Wp p Hp)), Ha|]. split; [apply k8s_tolerated_b_spec, Hb|apply (vol_zone_ok_b_spec _ _ We (Wp p Hp)), Hc].
+  - intros [H1 [H2 [H3 H4]]]. split; [split; [split; [|exact H2]|exact H3]|exact H4]. intros p Hp. destruct (H1 p Hp) as (Ha & Hb & Hc).
+    apply andb_true_intro. split; [apply andb_true_intro; split|].
+    + apply (labels_ok_b_spec _ _ We (Wp p Hp)), Ha.
+    + apply k8s_tolerated_b_spec, Hb.
+    + apply (vol_zone_ok_b_spec _ _ We (Wp p Hp)), Hc.
 Qed.
 
 (* ================================================================== findings: refutations on the faithful model *)
@@ -1062,7 +1177,7 @@ Definition claim0 (r : reqs) : nclaim := mkNC [] r [] [] [] [].
 (* F11: required `team In [a]` with the preference `team In [c]`: the pod's own requirement for the key is empty,
    is stored as DoesNotExist and passes Compatible on a claim that does not define the key *)
 Definition f11_pod : pod :=
-  mkPod "default/w1" [] [[("team", In, ["a"])]] [(1, [("team", In, ["c"])])] [] [] [] [] [] [("cpu", 500)].
+  mkPod "default/w1" [] [[("team", In, ["a"])]] [(1, [("team", In, ["c"])])] [] [] [] [] [] [("cpu", 500)] [] [] [].
 
 Lemma f11_compatible : compatible [] [] (pod_reqs true f11_pod) = true /\
   (forall v, has (get (add [] (pod_reqs true f11_pod)) "team") v = false) /\
@@ -1074,9 +1189,9 @@ Proof.
 Qed.
 
 (* F12: an existing node without a `team` label; `team NotIn [a]` then `team In [b]` are both accepted *)
-Definition f12_node : enode := mkEN [] [("zone", new_req In None ["z1"])] [("cpu", 4000)] [] [].
-Definition f12_p1 : pod := mkPod "default/w3" [] [[("team", NotIn, ["a"])]] [] [] [] [] [] [] [("cpu", 300)].
-Definition f12_p2 : pod := mkPod "default/w4" [] [[("team", In, ["b"])]] [] [] [] [] [] [] [("cpu", 200)].
+Definition f12_node : enode := mkEN [] [("zone", new_req In None ["z1"])] [("cpu", 4000)] [] [] [] [].
+Definition f12_p1 : pod := mkPod "default/w3" [] [[("team", NotIn, ["a"])]] [] [] [] [] [] [] [("cpu", 300)] [] [] [].
+Definition f12_p2 : pod := mkPod "default/w4" [] [[("team", In, ["b"])]] [] [] [] [] [] [] [("cpu", 200)] [] [] [].
 
 Lemma f12_accepted :
   let n := ex_exec true f12_node [f12_p1; f12_p2] in
@@ -1089,12 +1204,12 @@ Lemma f12_order : map p_key (en_pods (ex_exec true f12_node [f12_p2; f12_p1])) =
 Proof. vm_compute. reflexivity. Qed.
 
 (* F13: ExistingNode.CanAdd never looks at the host ports of daemons that are still to arrive *)
-Definition f13_pod : pod := mkPod "default/w5" [] [] [] [] [] [] [] [mkHP "0.0.0.0" 8080 "TCP"] [("cpu", 200)].
-Definition f13_daemon : pod := mkPod "default/ds" [] [] [] [] [] [] [mkTol "" "Exists" "" ""] [mkHP "0.0.0.0" 8080 "TCP"] [("cpu", 100)].
+Definition f13_pod : pod := mkPod "default/w5" [] [] [] [] [] [] [] [mkHP "0.0.0.0" 8080 "TCP"] [("cpu", 200)] [] [] [].
+Definition f13_daemon : pod := mkPod "default/ds" [] [] [] [] [] [] [mkTol "" "Exists" "" ""] [mkHP "0.0.0.0" 8080 "TCP"] [("cpu", 100)] [] [] [].
 
 Lemma f13_accepted :
   map p_key (en_pods (ex_exec true f12_node [f13_pod])) = ["default/w5"] /\
-  existing_admissible_b [("zone", "z1")] [] [("cpu", 4000)] [] [f13_pod] [f13_daemon] = false.
+  existing_admissible_b [("zone", "z1")] [] [("cpu", 4000)] [] [] [f13_pod] [f13_daemon] = false.
 Proof. vm_compute. split; reflexivity. Qed.
 
 (* F11 at step level: the real step function places the pod, the claim then requires `team DoesNotExist`, and the
@@ -1113,7 +1228,7 @@ Definition ex_it1 : itype := mkIT "small" [("zone", new_req In None ["z1"; "z2"]
 Definition ex_it2 : itype := mkIT "big" [("zone", new_req In None ["z1"])] [([("cpu", 4000); ("pods", 4000)], [[("zone", new_req In None ["z1"])]])].
 Definition ex_claim : nclaim := mkNC [mkTaint "dedicated" "x" "NoSchedule"] [] ["small"; "big"] [] [mkDG ["small"; "big"] [("cpu", 100); ("pods", 1000)] []] [].
 Definition ex_pod (name : string) (cpu : Z) : pod :=
-  mkPod name [("zone", "z1")] [] [] [] [] [] [mkTol "dedicated" "Exists" "" ""] [] [("cpu", cpu); ("pods", 1000)].
+  mkPod name [("zone", "z1")] [] [] [] [] [] [mkTol "dedicated" "Exists" "" ""] [] [("cpu", cpu); ("pods", 1000)] [] [] [].
 
 Lemma example_two_pods :
   let n := nc_exec ["zone"] [ex_it1; ex_it2] true ex_claim [(ex_pod "a" 600, false); (ex_pod "b" 600, false)] in
@@ -1121,7 +1236,268 @@ Lemma example_two_pods :
 Proof. vm_compute. repeat split; reflexivity. Qed.
 
 Lemma example_relax :
-  let p := mkPod "p" [] [[("a", In, ["1"])]; [("b", In, ["2"])]] [(5, [("c", Exists, [])])] [] [] [("zone", true); ("host", false)] [] [] [] in
+  let p := mkPod "p" [] [[("a", In, ["1"])]; [("b", In, ["2"])]] [(5, [("c", Exists, [])])] [] [] [("zone", true); ("host", false)] [] [] [] [] [] [] in
   p_req (relax_n true 10 p) = [[("b", In, ["2"])]] /\ p_pref (relax_n true 10 p) = [] /\
   p_tsc (relax_n true 10 p) = [("host", false)] /\ p_tols (relax_n true 10 p) = [pns_toleration].
 Proof. vm_compute. repeat split; reflexivity. Qed.
+
+(* ================================================================== pairwise host-port invariant over op sequences *)
+
+Lemma hp_matches_sym a b : hp_matches a b = hp_matches b a.
+Proof.
+  unfold hp_matches. rewrite (String.eqb_sym (hp_proto a)), (Z.eqb_sym (hp_port a)), (String.eqb_sym (hp_ip a)).
+  destruct (unspecified (hp_ip a)), (unspecified (hp_ip b)); rewrite ?orb_true_r, ?orb_false_r; reflexivity.
+Qed.
+
+(* reservations of DIFFERENT pods (or daemons) never share a host-port triple *)
+Definition usage_ok (u : usage) : Prop :=
+  forall k1 ps1 k2 ps2 a b, List.In (k1, ps1) u -> List.In (k2, ps2) u -> k1 <> k2 ->
+    List.In a ps1 -> List.In b ps2 -> hp_matches a b = false.
+
+Lemma in_uset u who ports k ps : List.In (k, ps) (uset u who ports) -> (k, ps) = (who, ports) \/ List.In (k, ps) u.
+Proof.
+  induction u as [|[k' p'] u IH]; simpl.
+  - intros [E|[]]. left. symmetry. exact E.
+  - destruct (String.eqb_spec who k') as [->|Hn]; simpl.
+    + intros [E|H]; [left; symmetry; exact E|right; right; exact H].
+    + intros [E|H]; [right; left; exact E|]. destruct (IH H) as [E|Hi]; [left; exact E|right; right; exact Hi].
+Qed.
+
+Lemma uset_has u who ports : List.In (who, ports) (uset u who ports).
+Proof.
+  induction u as [|[k' p'] u IH]; simpl; [left; reflexivity|].
+  destruct (String.eqb_spec who k') as [->|Hn]; simpl; [left; reflexivity|right; exact IH].
+Qed.
+
+Lemma uset_keeps u who ports k ps : k <> who -> List.In (k, ps) u -> List.In (k, ps) (uset u who ports).
+Proof.
+  intros Hk. induction u as [|[k' p'] u IH]; simpl; [tauto|].
+  destruct (String.eqb_spec who k') as [->|Hn]; simpl.
+  - intros [E|H]; [inversion E; subst; congruence|right; exact H].
+  - intros [E|H]; [left; exact E|right; apply IH, H].
+Qed.
+
+Lemma usage_ok_uset u who ports : usage_ok u -> conflicts u who ports = false -> usage_ok (uset u who ports).
+Proof.
+  intros Hu Hc k1 ps1 k2 ps2 a b H1 H2 Hne Ha Hb.
+  pose proof (proj1 (conflicts_false_spec u who ports) Hc) as Hs.
+  apply in_uset in H1 as [E1|H1]; apply in_uset in H2 as [E2|H2].
+  - inversion E1; inversion E2; subst. congruence.
+  - inversion E1; subst. apply (Hs a Ha k2 ps2 b H2); [intros E; apply Hne; symmetry; exact E|exact Hb].
+  - inversion E2; subst. rewrite hp_matches_sym. apply (Hs b Hb k1 ps1 a H1 Hne Ha).
+  - apply (Hu k1 ps1 k2 ps2 a b H1 H2 Hne Ha Hb).
+Qed.
+
+(* ---- ExistingNode ---- *)
+Definition ex_ports_inv (n : enode) : Prop :=
+  usage_ok (en_ports n) /\ forall p, List.In p (en_pods n) -> List.In (p_key p, p_ports p) (en_ports n).
+
+Lemma ex_step_pods all n p : en_pods (fst (ex_step all n p)) = en_pods n \/ en_pods (fst (ex_step all n p)) = en_pods n ++ [p].
+Proof. unfold ex_step. destruct (ex_can_add all n p); [right|left]; reflexivity. Qed.
+
+Lemma ex_step_ports all n p :
+  ex_ports_inv n -> (forall q, List.In q (en_pods n) -> p_key q <> p_key p) -> ex_ports_inv (fst (ex_step all n p)).
+Proof.
+  intros [Hu Hr] Hfresh. unfold ex_step. destruct (ex_can_add all n p) as [r|e] eqn:C; cbn [fst]; [|split; assumption].
+  assert (Hc : conflicts (en_ports n) (p_key p) (p_ports p) = false).
+  { unfold ex_can_add in C. destruct (tolerates_all _ _); cbn [negb] in C; [|discriminate].
+    destruct (exceeds_limits _ _ _); [discriminate|]. destruct (conflicts _ _ _); [discriminate|reflexivity]. }
+  unfold ex_add, ex_ports_inv. cbn [en_ports en_pods]. split; [apply usage_ok_uset; assumption|].
+  intros q Hq. apply in_app_or in Hq as [Hq|[<-|[]]]; [|apply uset_has].
+  apply uset_keeps; [apply Hfresh, Hq|apply Hr, Hq].
+Qed.
+
+Lemma ex_exec_pods_from all ops : forall n q, List.In q (en_pods (ex_exec all n ops)) -> List.In q (en_pods n) \/ List.In q ops.
+Proof.
+  induction ops as [|p ops IH]; intros n q; simpl; [intros H; left; exact H|].
+  intros H. destruct (IH _ _ H) as [Hq|Hq]; [|right; right; exact Hq].
+  destruct (ex_step_pods all n p) as [E|E]; rewrite E in Hq; [left; exact Hq|].
+  apply in_app_or in Hq as [Hq|[<-|[]]]; [left; exact Hq|right; left; reflexivity].
+Qed.
+
+Lemma ex_exec_ports all ops : forall n,
+  NoDup (map p_key ops) -> (forall q p, List.In q (en_pods n) -> List.In p ops -> p_key q <> p_key p) ->
+  ex_ports_inv n -> ex_ports_inv (ex_exec all n ops).
+Proof.
+  induction ops as [|p ops IH]; intros n Hnd Hfresh I; simpl; [exact I|].
+  inversion Hnd as [|? ? Hnotin Hnd']; subst. apply IH; [exact Hnd'| |].
+  - intros q p' Hq Hp'. destruct (ex_step_pods all n p) as [E|E]; rewrite E in Hq.
+    + apply Hfresh; [exact Hq|right; exact Hp'].
+    + apply in_app_or in Hq as [Hq|[<-|[]]]; [apply Hfresh; [exact Hq|right; exact Hp']|].
+      intros E'. apply Hnotin. rewrite E'. apply in_map, Hp'.
+  - apply ex_step_ports; [exact I|]. intros q Hq. apply Hfresh; [exact Hq|left; reflexivity].
+Qed.
+
+(* no two pods placed on an existing node, nor a placed pod and anything reserved on the node before (bound pods),
+   share a host-port triple — for every sequence of attempts by distinct pods *)
+Theorem ex_ports_pairwise_l all ops n0 :
+  NoDup (map p_key ops) -> en_pods n0 = [] -> usage_ok (en_ports n0) ->
+  let n := ex_exec all n0 ops in
+  (forall p q a b, List.In p (en_pods n) -> List.In q (en_pods n) -> p_key p <> p_key q ->
+     List.In a (p_ports p) -> List.In b (p_ports q) -> hp_matches a b = false) /\
+  (forall p k ps a b, List.In p (en_pods n) -> List.In (k, ps) (en_ports n) -> k <> p_key p ->
+     List.In a (p_ports p) -> List.In b ps -> hp_matches a b = false).
+Proof.
+  intros Hnd Hp Hu n.
+  assert (I : ex_ports_inv n).
+  { apply ex_exec_ports; [exact Hnd|rewrite Hp; intros q p []|split; [exact Hu|rewrite Hp; intros q []]]. }
+  destruct I as [Iu Ir]. split.
+  - intros p q a b Hp' Hq Hne Ha Hb. apply (Iu _ _ _ _ a b (Ir p Hp') (Ir q Hq) Hne Ha Hb).
+  - intros p k ps a b Hp' Hin Hne Ha Hb. apply (Iu _ _ _ _ a b (Ir p Hp') Hin (fun E => Hne (eq_sym E)) Ha Hb).
+Qed.
+
+(* ---- NodeClaim: the daemon overhead groups that still have a remaining instance type ---- *)
+Definition live (n : nclaim) (g : dgroup) : Prop := exists name, List.In name (nc_its n) /\ List.In name (dg_its g).
+
+(* every instance type belongs to one overhead group (buildDaemonOverheadGroups keys groups by the daemon set) *)
+Definition groups_disjoint (gs : list dgroup) : Prop :=
+  forall g1 g2 name, List.In g1 gs -> List.In g2 gs -> List.In name (dg_its g1) -> List.In name (dg_its g2) -> g1 = g2.
+
+Definition nc_ports_inv (n : nclaim) : Prop :=
+  groups_disjoint (nc_groups n) /\
+  forall g, List.In g (nc_groups n) -> live n g ->
+    usage_ok (dg_ports g) /\ forall p, List.In p (nc_pods n) -> List.In (p_key p, p_ports p) (dg_ports g).
+
+Definition upd_group (p : pod) (g : dgroup) : dgroup := mkDG (dg_its g) (dg_overhead g) (uset (dg_ports g) (p_key p) (p_ports p)).
+
+Lemma nc_step_pods wk cat all rx n p :
+  nc_pods (fst (nc_step wk cat all rx n p)) = nc_pods n \/ nc_pods (fst (nc_step wk cat all rx n p)) = nc_pods n ++ [p].
+Proof. unfold nc_step. destruct (nc_can_add wk cat all rx n p) as [[r its]|e]; [right|left]; reflexivity. Qed.
+
+Lemma mem_true_in x l : mem x l = true -> List.In x l.
+Proof. apply mem_In. Qed.
+
+Lemma nc_step_ports wk cat all rx n p :
+  nc_ports_inv n -> (forall q, List.In q (nc_pods n) -> p_key q <> p_key p) -> nc_ports_inv (fst (nc_step wk cat all rx n p)).
+Proof.
+  intros [Hd Hg] Hfresh. unfold nc_step.
+  destruct (nc_can_add wk cat all rx n p) as [[r its]|e] eqn:C; cbn [fst]; [|split; assumption].
+  destruct (nc_can_add_ok _ _ _ _ _ _ _ _ C) as (_ & _ & alt & u & _ & _ & _ & Hits).
+  unfold nc_add, nc_ports_inv. cbn [nc_groups nc_pods nc_its]. fold (upd_group p). split.
+  - intros g1' g2' name H1 H2 N1 N2. apply in_map_iff in H1 as (g1 & <- & H1). apply in_map_iff in H2 as (g2 & <- & H2).
+    cbn [upd_group dg_its] in N1, N2. rewrite (Hd g1 g2 name H1 H2 N1 N2). reflexivity.
+  - intros g' Hg' (name & Hn & Hng). apply in_map_iff in Hg' as (g & <- & Hgin). cbn [upd_group dg_its dg_ports] in *.
+    destruct (Hits name Hn) as (Hmem & i & g2 & _ & _ & Hg2 & Hd2 & Hc & _).
+    assert (E : g2 = g) by (apply (Hd g2 g name Hg2 Hgin Hd2 Hng)). subst g2.
+    assert (Hlive : live n g) by (exists name; split; [apply mem_true_in, Hmem|exact Hng]).
+    destruct (Hg g Hgin Hlive) as [Hu Hr]. split; [apply usage_ok_uset; assumption|].
+    intros q Hq. apply in_app_or in Hq as [Hq|[<-|[]]]; [|apply uset_has].
+    apply uset_keeps; [apply Hfresh, Hq|apply Hr, Hq].
+Qed.
+
+Lemma nc_exec_ports wk cat all ops : forall n,
+  NoDup (map (fun op : pod * bool => p_key (fst op)) ops) ->
+  (forall q op, List.In q (nc_pods n) -> List.In op ops -> p_key q <> p_key (fst op)) ->
+  nc_ports_inv n -> nc_ports_inv (nc_exec wk cat all n ops).
+Proof.
+  induction ops as [|[p rx] ops IH]; intros n Hnd Hfresh I; simpl; [exact I|].
+  inversion Hnd as [|? ? Hnotin Hnd']; subst. apply IH; [exact Hnd'| |].
+  - intros q op Hq Hop. destruct (nc_step_pods wk cat all rx n p) as [E|E]; rewrite E in Hq.
+    + apply Hfresh; [exact Hq|right; exact Hop].
+    + apply in_app_or in Hq as [Hq|[<-|[]]]; [apply Hfresh; [exact Hq|right; exact Hop]|].
+      intros E'. apply Hnotin. simpl. rewrite E'. apply (in_map (fun op0 : pod * bool => p_key (fst op0))), Hop.
+  - apply nc_step_ports; [exact I|]. intros q Hq. apply (Hfresh q (p, rx)); [exact Hq|left; reflexivity].
+Qed.
+
+(* for every overhead group that still has a remaining instance type: no two pods of the claim, nor a pod and a daemon
+   of that group, share a host-port triple — for every sequence of attempts by distinct pods *)
+Theorem nc_ports_pairwise_l wk cat all ops n0 :
+  NoDup (map (fun op : pod * bool => p_key (fst op)) ops) -> nc_pods n0 = [] ->
+  groups_disjoint (nc_groups n0) -> (forall g, List.In g (nc_groups n0) -> usage_ok (dg_ports g)) ->
+  let n := nc_exec wk cat all n0 ops in
+  forall g, List.In g (nc_groups n) -> live n g ->
+    (forall p q a b, List.In p (nc_pods n) -> List.In q (nc_pods n) -> p_key p <> p_key q ->
+       List.In a (p_ports p) -> List.In b (p_ports q) -> hp_matches a b = false) /\
+    (forall p k ps a b, List.In p (nc_pods n) -> List.In (k, ps) (dg_ports g) -> k <> p_key p ->
+       List.In a (p_ports p) -> List.In b ps -> hp_matches a b = false).
+Proof.
+  intros Hnd Hp Hd Hu n g Hg Hl.
+  assert (I : nc_ports_inv n).
+  { apply nc_exec_ports; [exact Hnd|rewrite Hp; intros q op []|].
+    split; [exact Hd|]. intros g0 Hg0 _. split; [apply Hu, Hg0|rewrite Hp; intros q []]. }
+  destruct I as [_ Ig]. destruct (Ig g Hg Hl) as [Iu Ir]. split.
+  - intros p q a b Hp' Hq Hne Ha Hb. apply (Iu _ _ _ _ a b (Ir p Hp') (Ir q Hq) Hne Ha Hb).
+  - intros p k ps a b Hp' Hin Hne Ha Hb. apply (Iu _ _ _ _ a b (Ir p Hp') Hin (fun E => Hne (eq_sym E)) Ha Hb).
+Qed.
+
+(* ================================================================== expected daemons: the oracle misses none *)
+
+(* a label value a node may carry for a key with effective requirement [e]: admitted by [e]; a complement requirement
+   (NotIn / Exists / bounds) is resolved — by the provider, or by Karpenter for a custom key — to a canonical numeral *)
+Definition carries (e : req) (v : string) : Prop :=
+  has e v = true /\ (compl e = true -> exists n, dec_int v = Some n).
+
+(* some label state the node may have satisfies `key o vs` *)
+Definition may_sat (e : option req) (o : oper) (vs : list string) : Prop :=
+  match e with
+  | None => True
+  | Some e => (exists v, carries e v /\ k8s_match o vs (Some v) = true) \/
+              ((forall v, has e v = false) /\ k8s_match o vs None = true)
+  end.
+
+Lemma dec_int_atoi v n : dec_int v = Some n -> atoi v = Some n.
+Proof. unfold dec_int. destruct (atoi v) as [m|]; [|discriminate]. destruct (String.eqb (itoa m) v); [intros [= ->]; reflexivity|discriminate]. Qed.
+
+Lemma some_value_b_complete e o vs v : valid_args o vs = true ->
+  carries e v -> k8s_match o vs (Some v) = true -> some_value_b e o vs = true.
+Proof.
+  intros Hv [Hh Hc] Hm. unfold some_value_b. destruct (compl e) eqn:C.
+  2:{ apply existsb_exists. exists v. split; [|rewrite Hh, Hm; reflexivity].
+      unfold has in Hh. rewrite C in Hh. apply andb_prop in Hh as [Hh _]. apply mem_In, Hh. }
+  destruct (Hc eq_refl) as (n & Hn). pose proof (dec_int_atoi v n Hn) as Ha.
+  pose proof (proj1 (in64_bounds n) (atoi_in64 v n Ha)) as Hn64.
+  pose proof (has_compl_bounds e v C Hh) as Hb.
+  destruct o; cbn [k8s_match] in Hm; try reflexivity; try discriminate.
+  - (* In *) apply existsb_exists. exists v. split; [apply mem_In, Hm|]. rewrite Hh, Hn. reflexivity.
+  - (* Gt *) cbn [valid_args] in Hv. destruct vs as [|b [|? ?]]; try discriminate. destruct (atoi b) as [m|] eqn:Eb; [|discriminate].
+    unfold num_arg. rewrite Eb. unfold cmp_match in Hm. rewrite Ha, Eb in Hm. apply Z.ltb_lt in Hm.
+    destruct (lte e) as [l|] eqn:L; apply Z.ltb_lt; [|unfold max64 in *; lia].
+    destruct (gte e); destruct Hb as (n' & Hn' & _ & Hz); rewrite Ha in Hn'; injection Hn' as <-; lia.
+  - (* Lt *) cbn [valid_args] in Hv. destruct vs as [|b [|? ?]]; try discriminate. destruct (atoi b) as [m|] eqn:Eb; [|discriminate].
+    unfold num_arg. rewrite Eb. unfold cmp_match in Hm. rewrite Ha, Eb in Hm. apply Z.ltb_lt in Hm.
+    destruct (gte e) as [g|] eqn:G; apply Z.ltb_lt; [|unfold min64 in *; lia].
+    destruct (lte e); destruct Hb as (n' & Hn' & Hz & _); rewrite Ha in Hn'; injection Hn' as <-; lia.
+  - (* Gte *) cbn [valid_args] in Hv. destruct vs as [|b [|? ?]]; try discriminate. destruct (atoi b) as [m|] eqn:Eb; [|discriminate].
+    unfold num_arg. rewrite Eb. unfold cmp_match in Hm. rewrite Ha, Eb in Hm. apply Z.leb_le in Hm.
+    destruct (lte e) as [l|] eqn:L; [|reflexivity]. apply Z.leb_le.
+    destruct (gte e); destruct Hb as (n' & Hn' & _ & Hz); rewrite Ha in Hn'; injection Hn' as <-; lia.
+  - (* Lte *) cbn [valid_args] in Hv. destruct vs as [|b [|? ?]]; try discriminate. destruct (atoi b) as [m|] eqn:Eb; [|discriminate].
+    unfold num_arg. rewrite Eb. unfold cmp_match in Hm. rewrite Ha, Eb in Hm. apply Z.leb_le in Hm.
+    destruct (gte e) as [g|] eqn:G; [|reflexivity]. apply Z.leb_le.
+    destruct (lte e); destruct Hb as (n' & Hn' & Hz & _); rewrite Ha in Hn'; injection Hn' as <-; lia.
+Qed.
+
+Lemma may_sat_b_complete e o vs : (forall x, e = Some x -> wf x) -> valid_args o vs = true ->
+  may_sat e o vs -> may_sat_b e o vs = true.
+Proof.
+  intros W Hv H. destruct e as [x|]; [|reflexivity]. simpl in H |- *. specialize (W x eq_refl).
+  destruct (empty_b x) eqn:E.
+  - pose proof (proj1 (empty_b_spec x W) E) as He. destruct H as [(v & [Hh _] & _)|[_ Hm]]; [rewrite He in Hh; discriminate|exact Hm].
+  - destruct H as [(v & Hc & Hm)|[He _]]; [apply (some_value_b_complete x o vs v Hv Hc Hm)|].
+    apply (empty_b_spec x W) in He. rewrite He in E. discriminate.
+Qed.
+
+(* a daemon MAY run on the node: its hard taints are tolerated and, key by key, some label state the node may have
+   satisfies its node selector and one of its required terms *)
+Definition may_run (eff : string -> option req) (ts : list taint) (d : pod) : Prop :=
+  k8s_tolerated ts (p_tols d) /\
+  (forall kv, List.In kv (p_sel d) -> may_sat (eff (fst kv)) In [snd kv]) /\
+  (p_req d = [] \/ exists t, List.In t (p_req d) /\ forall k o vs, List.In (k, o, vs) t -> may_sat (eff k) o vs).
+
+Lemma may_run_b_complete eff ts d : eff_wf eff -> (forall t, List.In t (p_req d) -> valid_term t) ->
+  may_run eff ts d -> may_run_b eff ts d = true.
+Proof.
+  intros We Wv (Ht & Hs & Hr). unfold may_run_b. apply andb_true_intro. split; [apply andb_true_intro; split|].
+  - apply k8s_tolerated_b_spec, Ht.
+  - apply forallb_forall. intros kv Hin. apply may_sat_b_complete; [intros x E; apply (We _ _ E)|reflexivity|apply Hs, Hin].
+  - destruct Hr as [E|(t & Hin & Hall)]; [rewrite E; reflexivity|].
+    destruct (p_req d) as [|t0 tr] eqn:Er; [destruct Hin|]. apply existsb_exists. exists t. split; [exact Hin|].
+    apply forallb_forall. intros [[k o] vs] Hx. apply may_sat_b_complete; [intros x E; apply (We _ _ E)|apply (Wv t Hin k o vs Hx)|apply Hall, Hx].
+Qed.
+
+(* the oracle's expected daemons contain every daemon that may run on the node *)
+Theorem expected_daemons_complete_l eff ts ds d : eff_wf eff -> (forall t, List.In t (p_req d) -> valid_term t) ->
+  List.In d ds -> may_run eff ts d -> List.In d (expected_daemons eff ts ds).
+Proof.
+  intros We Wv Hin Hm. unfold expected_daemons. apply filter_In. split; [exact Hin|apply may_run_b_complete; assumption].
+Qed.
